@@ -111,10 +111,58 @@ def witness_ngram(r):
     return {"match": bool(ok), "got": out}
 
 
+_ADD_SCRIPT = r"""
+import sys, json
+import numpy as np
+from vectorizers import NgramVectorizer
+A, B, Y = json.loads(sys.argv[1])
+bad = []
+va, vb, vc = NgramVectorizer().fit(A), NgramVectorizer().fit(B), NgramVectorizer().fit(A + B)
+s = va + vb
+ca, cc = s.column_label_dictionary_, vc.column_label_dictionary_
+if set(ca) != set(cc):
+    bad.append("columns differ")
+else:
+    Ms, Mc = s._train_matrix.toarray(), vc._train_matrix.toarray()
+    if Ms.shape != Mc.shape or any(not np.array_equal(Ms[:, ca[k]], Mc[:, cc[k]]) for k in ca):
+        bad.append("training matrix %s vs %s (columns %s / %s)" % (Ms.tolist(), Mc.tolist(), ca, cc))
+    T, Tc = s.transform(Y), vc.transform(Y)
+    if T.shape != (len(Y), len(ca)) or any(not np.array_equal(T.toarray()[:, ca[k]], Tc.toarray()[:, cc[k]]) for k in ca):
+        bad.append("merged transform")
+print("RESULT " + json.dumps(bad))
+"""
+
+
+def _replay_add_hash_orders(A, B, Y):
+    """the iteration order of a set of strings depends on PYTHONHASHSEED: run the same merge under several seeds"""
+    import os, sys, json, subprocess
+    f = lambda D: [["w%d" % int(t) for t in d] for d in D]
+    arg = json.dumps([f(A), f(B), f(Y)])
+    bad = []
+    for seed in range(6):
+        env = dict(os.environ, PYTHONHASHSEED=str(seed))
+        p = subprocess.run([sys.executable, "-c", _ADD_SCRIPT, arg], env=env, capture_output=True, text=True, timeout=900)
+        line = [l for l in p.stdout.split("\n") if l.startswith("RESULT ")]
+        if not line:
+            bad.append("seed %d: %s" % (seed, p.stderr[-300:]))
+        else:
+            b = json.loads(line[-1][7:])
+            if b:
+                bad.append("PYTHONHASHSEED=%d (string tokens): %s" % (seed, "; ".join(b)))
+    return bad
+
+
 def replay_add(r):
     inp = r["inputs"]
     A, B, Y = inp["A"], inp["B"], inp["Y"]
     bad = []
+    if "set order" in r.get("assertion", "") or True:
+        try:
+            bad += _replay_add_hash_orders(A, B, Y)[:2]
+        except Exception as e:
+            bad.append("%s: %s" % (type(e).__name__, e))
+        if bad:
+            return {"violation": True, "detail": "; ".join(bad)[:700]}
     try:
         va, vb, vc = NgramVectorizer().fit(A), NgramVectorizer().fit(B), NgramVectorizer().fit(A + B)
         s = va + vb
